@@ -1903,7 +1903,11 @@ func (p *parsing) addNode(node ast.Node) {
 		n.Pos().End = node.Pos().End
 		p.removeLastAncestor()
 	case *ast.Raw:
-		n.Text = node.(*ast.Text)
+		text, ok := node.(*ast.Text)
+		if !ok {
+			panic(syntaxError(node.Pos(), "unexpected %s, expecting end raw", node))
+		}
+		n.Text = text
 	default:
 		panic("scriggo/parser: unexpected parent node")
 	}
